@@ -915,6 +915,7 @@ class Ctx:
 
 
 _has_cache = {}
+_has_keep = []
 
 
 def _has_const(e, v):
@@ -944,7 +945,9 @@ def _has_const(e, v):
             stack.append(t.body())
     if len(_has_cache) > 200000:
         _has_cache.clear()
+        _has_keep.clear()
     _has_cache[key] = found
+    _has_keep.append((e, v))  # keep the terms alive: z3 recycles ast ids
     return found
 
 
